@@ -275,7 +275,10 @@ class BlockDiagNormal(ssm_impl_api.AbstractTreeNormal[BlockDiagTreeFlatten]):
         if self.mean_flat.ndim > 2:
             return func.vmap(BlockDiagNormal._std_batched)(self)
 
-        std_flat = func.vmap(func.vmap(linalg.vector_norm))(self.cholesky_flat)
+        # Use qr_r instead of a vector norm so that the standard deviation of an
+        # exactly known state (zero Cholesky factor) remains differentiable. See #668.
+        std_flat = func.vmap(func.vmap(linalg.qr_r))(self.cholesky_flat[..., None])
+        std_flat = np.abs(std_flat.reshape(self.cholesky_flat.shape[:-1]))
         return self.tree_flatten.unflatten_array(std_flat)
 
     def residual_whitened_rms_tree(self, u, /):
